@@ -212,11 +212,15 @@ def replay_scripts():
                     insts.append({'role': {'greg_sent': False, 'greg_recv': True, 'next': None}[kind], 'pos': 0, 'ref': ot.RefConn()})
                     reg_open[c] = len(insts) - 1
                 inst = insts[reg_open[c]]
-                sev = ['get_registry'] if kind != 'next' else SCRIPT[inst['pos']]
-                if kind == 'next':
-                    inst['pos'] += 1
                 server = bool(inst['role'])
-                msg, _ = ot.build(sev, inst['ref'], T + n * 100, server_side=server)
+                if kind == 'orphan':
+                    msg = {'t_us': T + n * 100, 'sent': server, 'iface': 'zz_q', 'id': 77, 'name': 'foo', 'args': [['int', 1]],
+                           'queue': None, 'conn': None}
+                else:
+                    sev = ['get_registry'] if kind != 'next' else SCRIPT[inst['pos']]
+                    if kind == 'next':
+                        inst['pos'] += 1
+                    msg, _ = ot.build(sev, inst['ref'], T + n * 100, server_side=server)
                 batch.append(gdbenv.closure_from_print(msg, side='server' if server else 'client', conn=base + c))
         base += 3
     if batch:
